@@ -48,14 +48,26 @@ func vC18Sort(n int) {
 	if !vSymbolic() && cnt >= 2 {
 		// Native replay: the real sort.Slice is an insertion sort (stable in practice) below 12
 		// elements, so a tie order that the contract allows cannot show on 3 items.  The scenario
-		// is replicated cyclically to 64 items, where the real algorithm does reorder ties.
+		// is replicated cyclically to sizes on both sides of the library's internal thresholds
+		// (16: between pdqsort's insertion-sort cut-off and SliceStable's block size; 64: beyond
+		// both), where the real algorithms do reorder ties.
 		base := items
-		items = make([]vItem, 64)
-		for i := range items {
-			items[i] = vItem{K: base[i%len(base)].K, ID: int64(i)}
+		for _, size := range []int{16, 64} {
+			big := make([]vItem, size)
+			for i := range big {
+				big[i] = vItem{K: base[i%len(base)].K, ID: int64(i)}
+			}
+			vC18SortRun(which, failing, big)
 		}
-		cnt = len(items)
+		vReach("end")
+		return
 	}
+	vC18SortRun(which, failing, items)
+	vReach("end")
+}
+
+func vC18SortRun(which int, failing bool, items []vItem) {
+	cnt := len(items)
 	released := 0
 	srcItems := ro.NewUnsafeObservableWithContext(func(ctx context.Context, d ro.Observer[vItem]) ro.Teardown {
 		for _, it := range items {
@@ -99,7 +111,6 @@ func vC18Sort(n int) {
 	vAssert(released == 1, name+": the source was not released exactly once")
 	if failing {
 		vAssert(terminal == 10 && len(got) == 0 && vErrCode(gotErr) == 1, name+": the error of the source was not propagated alone")
-		vReach("end")
 		return
 	}
 	vAssert(terminal == 1, name+": not exactly one completion")
@@ -131,7 +142,6 @@ func vC18Sort(n int) {
 		}
 		vAssert(st, "SortStableFunc: items equal under the comparison did not keep their original order")
 	}
-	vReach("end")
 }
 
 func vhC18_sort_n2() { vC18Sort(2) }
